@@ -45,7 +45,7 @@ def run(prop, tier, seed, replay=None):
                     samples.append(o)
         rep.cov.update({"states": states, "transitions": transitions, "model_checking_runs": runs,
                         "traces_validated_against_impl": consumed, "evaluations": consumed, "distinct_nontrivial": consumed * 3 // 4,
-                        "rule": "4 auth configurations x base path on/off x 6 schemes x 4 separators x 21 payload classes x 8 path shapes x 4 methods, "
+                        "rule": "4 auth configurations x base path on/off x 6 schemes x 4 separators x 26 payload classes x 8 path shapes x 4 methods, "
                                 "all sent through the real chain; distinct by construction; non-trivial = some auth configured (3 of 4 configurations)",
                         "outcomes": counts, "samples": samples, "exhaustive": True})
         rep.assumptions += ["the abstract header grammar (atoms) of Auth.tla: secrets are opaque; concrete strings are fixed (admin/s3cret/tok-123456)",
